@@ -53,7 +53,7 @@ if ok:
         if os.path.exists(os.path.join(sd, f)):
             shutil.copy(os.path.join(sd, f), dst)
     notes = open(os.path.join(sd, "notes.txt")).read().strip() if os.path.exists(os.path.join(sd, "notes.txt")) else ""
-    json.dump({"property": pid, "breaks": notes, "needs_to_manifest": "see notes.txt", "round": 3,
+    json.dump({"property": pid, "breaks": notes, "needs_to_manifest": "see notes.txt", "round": int(os.environ.get("SEED_ROUND", "3")),
                "confirmed": {"demo_exit_unpatched": d0, "demo_exit_patched": d1, "test_suite_with_patch": t},
                "ran": ["git apply patch.diff in a scratch worktree; demo.py; full pytest",
                        "harness/seedpar.sh: ./check %s --tier quick in a private copy of /verif with VERIF_REPO=<patched worktree>"
